@@ -47,6 +47,42 @@ ASSUMPTIONS = ['tf.maximum/minimum/reduce_max/reduce_min semantics',
 LL = 'lattice_lib'
 
 
+def _any_edgeworth(prog, res):
+  """K6: the trapezoid repair switches to the coarser, uniform update
+  "whenever any Edgeworth trust is set for this layer" (documented on
+  _trapezoid_violation_update): a per-vertex update on one pair of columns
+  changes differences that an Edgeworth trust on ANOTHER feature compares.
+  The flag may therefore depend on edgeworth_trusts only - not on the
+  trapezoid constraint being repaired."""
+  fn = prog.function(LL + '._approximately_project_trapezoid')
+  defs = [st for st in ast.walk(fn.node) if isinstance(st, ast.Assign) and
+          dotted(st.targets[0]) == 'any_edgeworth']
+  if not defs:
+    raise AnalysisError('_approximately_project_trapezoid: any_edgeworth is '
+                        'no longer computed')
+  for i, st in enumerate(defs):
+    bound_here = set()
+    for n in ast.walk(st.value):
+      if isinstance(n, ast.comprehension):
+        bound_here |= {x.id for x in ast.walk(n.target)
+                       if isinstance(x, ast.Name)}
+    reads = names_read(st.value) - bound_here - {'bool', 'len', 'any'}
+    filt = [n for n in ast.walk(st.value) if isinstance(n, ast.Compare)
+            and not (isinstance(n.ops[0], (ast.Gt, ast.NotEq)) and
+                     const_value(n.comparators[0], None) == 0)]
+    res.check(reads <= {'edgeworth_trusts'} and not filt, 'K6',
+              '%s|any_edgeworth%s' % (fn.qualname, '#%d' % (i + 1) if i
+                                      else ''), fn.loc(st),
+              'any_edgeworth depends on edgeworth_trusts only',
+              'any_edgeworth = `%s` depends on %s: the uniform update is '
+              'skipped for trapezoid trusts whose main feature carries no '
+              'Edgeworth trust, and their per-vertex update breaks Edgeworth '
+              'trusts on other features' % (
+                  norm_text(st.value)[:60],
+                  sorted(reads - {'edgeworth_trusts'}) or 'a filter on the '
+                  'trust entries'))
+
+
 def run(prog, res):
   from ..rules import hashkeys
   for q in ('lattice_lib.project_by_dykstra', 'lattice_lib._approximately_project_trapezoid'):
@@ -67,6 +103,8 @@ def run(prog, res):
   _order(prog, res)
   affine_rules.check_local_repairs(prog, res)
   affine_rules.check_opposed_pairs(prog, res)
+  _any_edgeworth(prog, res)
+  res.floor('K6', 1)
   affine_rules.check_bounds_map(prog, res)
   affine_rules.check_A4_strict(prog, res)
   res.floor('A4', 5)
